@@ -39,7 +39,7 @@ from nanoemoji.paint import (
     PaintColrLayers,
     is_transform,
 )
-from picosvg.geometric_types import Rect
+from picosvg.geometric_types import almost_equal, Rect
 from nanoemoji.reorder_glyphs import reorder_glyphs
 from picosvg.svg import to_element, SVG, SVGTraverseContext
 from picosvg import svg_meta
@@ -327,6 +327,15 @@ def _define_radial_gradient(
     return gradient_id
 
 
+def _keeps_circles(affine: Affine2D) -> bool:
+    # only a uniform scale (possibly flipped) and translation; no rotation or skew
+    return (
+        almost_equal(affine.b, 0)
+        and almost_equal(affine.c, 0)
+        and almost_equal(abs(affine.a), abs(affine.d))
+    )
+
+
 def _map_gradient_coordinates(
     paint: _GradientPaint, affine: Affine2D
 ) -> _GradientPaint:
@@ -378,14 +387,22 @@ def _apply_paint(
     if isinstance(paint, PaintSolid):
         _apply_solid_paint(el, paint)
     elif isinstance(paint, (PaintLinearGradient, PaintRadialGradient)):
-        # Gradient paint coordinates are in UPEM space, we want them in SVG viewBox
-        # so that they match the SVGPath.d coordinates (that we copy unmodified).
-        paint = _map_gradient_coordinates(paint, upem_to_vbox)
-        # Likewise transforms refer to UPEM so they must be adjusted for SVG
-        if transform != Affine2D.identity():
-            transform = Affine2D.compose_ltr(
-                (upem_to_vbox.inverse(), transform, upem_to_vbox)
-            )
+        if isinstance(paint, PaintRadialGradient) and not _keeps_circles(
+            upem_to_vbox
+        ):
+            # e.g. a user transform that scales non-uniformly, skews or rotates. The
+            # gradient circles would not map to circles so leave the geometry in
+            # UPEM space and have gradientTransform take it into the SVG viewBox.
+            transform = Affine2D.compose_ltr((transform, upem_to_vbox))
+        else:
+            # Gradient paint coordinates are in UPEM space, we want them in SVG viewBox
+            # so that they match the SVGPath.d coordinates (that we copy unmodified).
+            paint = _map_gradient_coordinates(paint, upem_to_vbox)
+            # Likewise transforms refer to UPEM so they must be adjusted for SVG
+            if transform != Affine2D.identity():
+                transform = Affine2D.compose_ltr(
+                    (upem_to_vbox.inverse(), transform, upem_to_vbox)
+                )
         _apply_gradient_paint(svg_defs, el, paint, reuse_cache, transform)
     elif is_transform(paint):
         transform @= paint.gettransform()
